@@ -40,6 +40,10 @@ package announce
 //@   modifies state(r.announceCache)
 //@   ensures recvOK(r)
 //@   ensures-local count("call:remove") == 1
+//@   ghost key := 0
+//@   at call String#1: assert arg0 == adCid
+//@   at call String#1: after ghost key := str(result)
+//@   at call remove#1: assert str(arg1) == key && count("call:String") == 1
 
 //@ func (*Receiver).Direct
 //@   property C16 C09
@@ -85,6 +89,11 @@ package announce
 //@   ensures-local allowed && old(r.closed) ==> result == ErrClosed && count("call:update") == 0
 //@   ensures-local result == nil ==> count("call:update") == 1
 //@   ensures old(r.closed) ==> result != nil
+// the duplicate filter is keyed by the CID's string form - the same key UncacheCid removes
+//@   ghost key := 0
+//@   at call String#1: assert arg0 == amsg.Cid
+//@   at call String#1: after ghost key := str(result)
+//@   at call update#1: assert str(arg1) == key && count("call:String") == 1
 
 // Republication (C09): the message sent on carries the announced CID, the announced addresses and, as
 // its original-peer field, the publisher of the announcement; nothing of the receiver changes.
@@ -145,6 +154,21 @@ package announce
 //@   at call handleAnnounce#1: assert arg2.Cid == m.Cid && arg3 == false
 //@   at call handleAnnounce#1: assert ite(str(m.OrigPeer) != str(""), str(arg2.PeerID) == orig && src != str(r.hostID), str(arg2.PeerID) == src)
 //@   loop 1: invariant recvOK(r) && !held(r.announceMutex) && r.topicSub != nil && r.topic != nil && r.watchDone != nil && !closed(r.watchDone)
+// every pubsub message is handed on exactly once unless there is a reason not to: the subscription had
+// to be restarted, the sender ID / the message / its addresses / its original-peer field do not decode,
+// or it is a republication (original-peer field set) coming from this very host.
+//@   ghost idErr := false
+//@   ghost cborErr := false
+//@   ghost addrErr := false
+//@   ghost decErr := false
+//@   ghost origSet := false
+//@   at call IDFromBytes#1: after ghost idErr := result1 != nil
+//@   at call UnmarshalCBOR#1: after ghost cborErr := result != nil
+//@   at call UnmarshalCBOR#1: after ghost origSet := str(m.OrigPeer) != str("")
+//@   at call GetAddrs#1: after ghost addrErr := result1 != nil
+//@   at call Decode#1: after ghost decErr := result1 != nil
+//@   loop 1: iteration ensures itercount("call:handleAnnounce") <= 1
+//@   loop 1: iteration ensures itercount("call:handleAnnounce") == 0 ==> itercount("call:IDFromBytes") == 0 || idErr || (itercount("call:UnmarshalCBOR") == 1 && cborErr) || (itercount("call:GetAddrs") == 1 && addrErr) || (itercount("call:Decode") == 1 && decErr) || (itercount("call:UnmarshalCBOR") == 1 && !cborErr && origSet && src == str(r.hostID))
 
 //@ func (*stringLRU).len
 //@   property C09
